@@ -236,6 +236,7 @@ PROPS = {
             {"kind": "verus", "unit": "sort"},
             {"kind": "verus", "unit": "runs"},
             {"kind": "verus", "unit": "fmt"},
+            {"kind": "verus", "unit": "ffmt"},
             {"kind": "verus", "unit": "relop"},
             {"kind": "verus", "unit": "derive"},
             {"kind": "verus", "unit": "qsel"},
